@@ -3,6 +3,7 @@
 package nbt
 
 import (
+	"errors"
 	"io"
 )
 
@@ -31,7 +32,25 @@ type Decoder struct {
 	r                     DecoderReader
 	disallowUnknownFields bool
 	networkFormat         bool
+	depth                 int // lists and compounds currently open
 }
+
+// maxDecodeDepth is how deep lists and compounds may nest in a binary document (vanilla Minecraft refuses
+// to read anything deeper than 512 as well).
+const maxDecodeDepth = 512
+
+// enter is called when the decoder steps into a list or compound. Every level costs a stack frame and a
+// level of error wrapping, and the nesting comes from the input: beyond maxDecodeDepth decoding fails
+// instead of growing the stack until the runtime aborts the process.
+func (d *Decoder) enter() error {
+	if d.depth >= maxDecodeDepth {
+		return errors.New("nbt: exceeded max nesting depth")
+	}
+	d.depth++
+	return nil
+}
+
+func (d *Decoder) leave() { d.depth-- }
 
 func NewDecoder(r io.Reader) *Decoder {
 	d := new(Decoder)
